@@ -1,6 +1,7 @@
 import MicroHttp.Props.C02
 import MicroHttp.Props.C01
 import MicroHttp.Props.C01IO
+import MicroHttp.Props.Tables
 #print axioms MicroHttp.C02.reqline_precedence
 #print axioms MicroHttp.C02.reqline_accept_iff
 #print axioms MicroHttp.C02.grammar_accepted
@@ -10,3 +11,4 @@ import MicroHttp.Props.C01IO
 #print axioms MicroHttp.C01.tryRead_refines
 #print axioms MicroHttp.C01.sched_refines
 #print axioms MicroHttp.C01.history_input_is_reads_only
+#print axioms MicroHttp.Tables.no_shared_state
